@@ -239,54 +239,58 @@ def _r1_one(run, R1, w, fi):
   dele = [(n, c) for (n, c, nm) in fn.calls() if isinstance(c.func, ast.Attribute) and
           c.func.attr == "prepare_new_values" and isinstance(c.func.value, ast.Call) and
           dotted(c.func.value.func) == "super"]
-  if len(dele) != 1:
+  if not dele:
     run.ob(R1, fi.qualname, "return super().prepare_new_values(...)", "the translated values are "
-           "delegated to the base class exactly once", False, fi=fi)
+           "delegated to the base class", False, fi=fi)
     return
-  dn, dc = dele[0]
-  try:
-    d_rows, d_vals, d_sum = (H.arg_of(dc, base, "row_ids"), H.arg_of(dc, base, "values"),
-                             H.kwarg(dc, "action_summary") or
-                             (dc.args[3] if len(dc.args) > 3 else None))
-  except AnalysisError:
-    raise AnalysisError("%s: cannot bind the arguments of %s" % (fi.qualname, short(dc)))
   is_tr = lambda x, d: isinstance(x, str) and ((x == resv and d == tdef) or
                                                (x == p_vals and d == ENTRY))
-  vals_ok = d_vals is not None and H.whole_of(fn, rd, d_vals, dn.id, is_tr) is True and \
-      isinstance(d_vals, ast.Name) and tdef in _defs_feeding(fn, rd, d_vals, dn.id)
+  D = {n.id for (n, c) in dele}
+  rows_ok = vals_ok = sum_ok = True
+  fed = False
+  for (dn, dc) in dele:
+    try:
+      d_rows, d_vals, d_sum = (H.arg_of(dc, base, "row_ids"), H.arg_of(dc, base, "values"),
+                               H.kwarg(dc, "action_summary") or
+                               (dc.args[3] if len(dc.args) > 3 else None))
+    except AnalysisError:
+      raise AnalysisError("%s: cannot bind the arguments of %s" % (fi.qualname, short(dc)))
+    rows_ok = rows_ok and d_rows is not None and H.canon(fn, d_rows) == p_rows
+    sum_ok = sum_ok and d_sum is not None and H.canon(fn, d_sum) == p_sum
+    vals_ok = vals_ok and d_vals is not None and isinstance(d_vals, ast.Name) and \
+        H.whole_of(fn, rd, d_vals, dn.id, is_tr) is True
+    fed = fed or (isinstance(d_vals, ast.Name) and tdef in _defs_feeding(fn, rd, d_vals, dn.id))
+  vals_ok = vals_ok and fed
   rets = H.return_values(fn, du, rd)
-  ret_ok = bool(rets) and all(e is dc for (n, e, at) in rets) and \
-      cfg.dominated_by(cfg.exit.id, {dn.id})
-  ok = d_rows is not None and H.canon(fn, d_rows) == p_rows and vals_ok and \
-      d_sum is not None and H.canon(fn, d_sum) == p_sum and ret_ok
+  ret_ok = bool(rets) and all(any(e is dc for (dn, dc) in dele) for (n, e, at) in rets) and \
+      cfg.dominated_by(cfg.exit.id, D)
+  ok = rows_ok and vals_ok and sum_ok and ret_ok
   run.ob(R1, fi.qualname, "return super().prepare_new_values(row_ids, %s, ..., action_summary="
          "action_summary)" % resv, "the base class (reverse-reference adjustments) works on the "
          "translated values and the result is what the caller gets", ok, fi=fi,
          witness=None if ok else "rows=%s values=%s summary=%s returned=%s" % (
-           d_rows is not None and H.canon(fn, d_rows) == p_rows, vals_ok,
-           d_sum is not None and H.canon(fn, d_sum) == p_sum, ret_ok))
+           rows_ok, vals_ok, sum_ok, ret_ok))
   # translation is skipped only when no action summary is given (or there are no values): with
-  # both truthy no path gets to the delegation without translating (any other condition on the
+  # both truthy no path gets to a delegation without translating (any other condition on the
   # way leaves both of its branches open)
-  given = lambda e: True if isinstance(e, ast.Name) and e.id in (p_sum, p_vals) and \
-      rd.reaching(e.id, cfg.entry.id) is not None else None
+  given = lambda e: True if isinstance(e, ast.Name) and e.id in (p_sum, p_vals) else None
   loop_node = getattr(comp, "_loop_node", None)
   must = {tn.id} if loop_node is None else {loop_node}
   rebound = du.rebinders(p_sum)
-  unguarded = dn.id in H.reach_assuming(cfg, {cfg.entry.id}, given, removed=must)
+  unguarded = D & H.reach_assuming(cfg, {cfg.entry.id}, given, removed=must)
   g_ok = not unguarded and not rebound
   run.ob(R1, fi.qualname, "if %s: translate" % p_sum, "translation is skipped only when no action "
          "summary is given (or there are no values)", g_ok, fi=fi,
          witness=None if g_ok else "a path reaches the delegation without translating although "
                                    "an action summary (and values) were given")
   rej = {n.id for (n, c, nm) in fn.calls() if nm == "self._reject_unresolved_temp_ids" and
-         len(c.args) == 1 and isinstance(c.args[0], ast.Name) and
-         H.whole_of(fn, rd, c.args[0], n.id,
+         len(H.norm(w, fn, c).args) == 1 and isinstance(H.norm(w, fn, c).args[0], ast.Name) and
+         H.whole_of(fn, rd, H.norm(w, fn, c).args[0], n.id,
                     lambda x, d: isinstance(x, str) and x == resv and d == tdef) is True}
   if not (ok and g_ok):
     return
   # with a summary: translate, then reject, then delegate
-  ok_r = bool(rej) and dn.id not in H.reach_assuming(cfg, {cfg.entry.id}, given, removed=rej)
+  ok_r = bool(rej) and not (D & H.reach_assuming(cfg, {cfg.entry.id}, given, removed=rej))
   run.ob(R1, fi.qualname, "translate -> self._reject_unresolved_temp_ids(%s) -> delegate" % resv,
          "with an action summary, every path to the delegation translates first and then rejects "
          "ids that stayed negative", ok_r, fi=fi,
@@ -556,7 +560,8 @@ def r3_row_ids(run, w):
     p = fn.fi.params()[1]
     tv = [s.targets[0].id for s in ast.walk(fn.node) if isinstance(s, ast.Assign) and
           isinstance(s.value, ast.Call) and fn.name(s.value) == "self._forTable" and
-          [text(a) for a in s.value.args] == [p] and isinstance(s.targets[0], ast.Name)]
+          [H.canon(fn, a) for a in H.norm(w, fn, s.value).args] == [p] and
+          isinstance(s.targets[0], ast.Name)]
     attrs = {x.attr for x in ast.walk(fn.node) if isinstance(x, ast.Attribute) and
              isinstance(x.value, ast.Name) and tv and x.value.id == tv[0]}
     return attrs
@@ -625,6 +630,10 @@ VARIANTS = [
   ("ref-rejects-before-translating", CO,
    "      values = action_summary.translate_new_row_ids(self._target_table.table_id, values)\n      self._reject_unresolved_temp_ids(values)\n    return super(ReferenceColumn",
    "      self._reject_unresolved_temp_ids(values)\n      values = action_summary.translate_new_row_ids(self._target_table.table_id, values)\n    return super(ReferenceColumn",
+   "C26-R1"),
+  ("ref-early-return-also-for-formula-columns", CO,
+   "    if action_summary and values:\n      values = action_summary.translate_new_row_ids(self._target_table.table_id, values)\n      self._reject_unresolved_temp_ids(values)\n    return super(ReferenceColumn, self).prepare_new_values(row_ids, values,\n        ignore_data=ignore_data, action_summary=action_summary)",
+   "    if not (action_summary and values) or self.is_formula():\n      return super(ReferenceColumn, self).prepare_new_values(row_ids, values,\n          ignore_data=ignore_data, action_summary=action_summary)\n    values = action_summary.translate_new_row_ids(self._target_table.table_id, values)\n    self._reject_unresolved_temp_ids(values)\n    return super(ReferenceColumn, self).prepare_new_values(row_ids, values,\n        ignore_data=ignore_data, action_summary=action_summary)",
    "C26-R1"),
   ("reject-only-single-references", CO,
    "      for r in (value if isinstance(value, list) else (value,)):\n        if isinstance(r, int) and r < 0:",
